@@ -1,10 +1,15 @@
 (* Shared vocabulary of the cutplace model: text, results, error families.
    Executable definitions only. *)
+From Coq Require Import String Ascii.
 From Coq Require Export List NArith ZArith Arith Bool.
 Export ListNotations.
 
 (* Python str = list of Unicode code points *)
 Definition text := list N.
+
+(* Coq string literal -> text, for readable sources: txt "int" *)
+Definition txt (s : String.string) : text := map Ascii.N_of_ascii (String.list_ascii_of_string s).
+Arguments txt s%string.
 
 Fixpoint text_eqb (a b : text) : bool :=
   match a, b with
